@@ -652,7 +652,7 @@ type LinkCase struct {
 func genLink(t *rapid.T) LinkCase {
 	c := LinkCase{SB: genSB(t)}
 	c.Type = rapid.SampledFrom([]string{"hard", "hard", "hard", "hard", "external", "external", "external", "soft"}).Draw(t, "type")
-	c.Name = genBlob(t, "name", nameLens(0, 65535), "", "", "utf8", "nz")
+	c.Name = genBlob(t, "name", nameLens(0, 131072), "", "", "utf8", "nz") // names of 64 KiB and more use the 4-byte length field
 	code := uint8(0)
 	switch {
 	case c.Name.N > 255:
